@@ -10,11 +10,11 @@ from ..runner import Exploration, Failure
 STREAMS = {
     # ops the engine issues are observed by a user-level probe mixin placed first; Lean model runs on
     # the same ops (`runGroup`), the oracle judges every op
-    'ops': dict(classes=feat.CLASSES, probe=True, featureless=False, quick=(16, 120), thorough=(64, 900)),
+    'ops': dict(classes=feat.CLASSES, probe=True, featureless=False, quick=(16, 700), thorough=(64, 3500)),
     # flat machines without any probe: Lean flat layer (`trigger`) against the public API only
-    'flat': dict(classes=feat.CLASSES[:2], probe=False, featureless=False, quick=(8, 120), thorough=(32, 900)),
+    'flat': dict(classes=feat.CLASSES[:2], probe=False, featureless=False, quick=(16, 350), thorough=(32, 3500)),
     # decorated vs plain machine on states that carry no feature arguments
-    'diff': dict(classes=feat.CLASSES, probe=False, featureless=True, quick=(8, 60), thorough=(32, 400)),
+    'diff': dict(classes=feat.CLASSES, probe=False, featureless=True, quick=(16, 150), thorough=(32, 1500)),
 }
 
 
@@ -94,6 +94,7 @@ def run_cases(stream, descs):
     """returns list of (failures, info)"""
     res = []
     reqs, owners = [], []
+    descs = [feat.normalise(d) for d in descs]
     for n, d in enumerate(descs):
         fails, info, run, req = judge(stream, d)
         res.append([fails, info, run])
